@@ -35,3 +35,5 @@ open CalmVerif.Props.C16 CalmVerif.Props.C16order
 #check @children_in_print_order_nonvacuous
 #print axioms old_dowhile_order_rejected
 #check @old_dowhile_order_rejected
+#print axioms definitions_read_every_child_once
+#check @definitions_read_every_child_once
